@@ -123,6 +123,9 @@ class Engine:
         self.lazy_entry = {}
         self.solver_time = 0.0
         self.queries = 0
+        self.cross_check = False          # thorough tier: every unbounded `unsat` of z3 is re-decided by cvc5
+        self.cross = {'agree': 0, 'cvc5_undecided': 0, 'cvc5_sat': 0, 'skipped_budget': 0, 'time_s': 0.0}
+        self.cross_budget_s = 240.0
         self.cur: Contract | None = None
         self.cur_fkey = ''
         self.loop_counter = 0
@@ -244,6 +247,22 @@ class Engine:
             with open(os.path.join(os.environ['PYVC_DUMP'], f'q{self._dumpn}_{"fin" if self.ctx.finite else "unb"}.smt2'), 'w') as fh:
                 fh.write('(set-logic ALL)\n' + s.to_smt2())
         if r == z3.unsat:
+            if self.cross_check and not self.ctx.finite and not self.trial and timeout_ms is None:
+                if self.cross['time_s'] > self.cross_budget_s:
+                    self.cross['skipped_budget'] += 1
+                else:
+                    from .smt2 import cvc5_answer
+                    t1 = time.time()
+                    ans, _ = cvc5_answer(s, 10000)
+                    self.cross['time_s'] += time.time() - t1
+                    if ans == 'unsat':
+                        self.cross['agree'] += 1
+                    elif ans == 'sat':
+                        # the two back ends disagree: never a violation, but not a proof either
+                        self.cross['cvc5_sat'] += 1
+                        return 'open', 'back ends disagree: z3 unsat, cvc5 sat (unbounded query)'
+                    else:
+                        self.cross['cvc5_undecided'] += 1
             return 'discharged', ''
         if not self.ctx.finite and not self.trial and timeout_ms is None:
             # second back end: the same query (z3's SMT-LIB print of it) is given to cvc5, whose quantifier
